@@ -40,6 +40,52 @@ CORPUS = [
 FLAGSETS = [[], ['-k'], ['--dict-strategy', 'match'], ['-k', '-l'], ['-e', '-k'], ['-d'], ['-k', '-j']]
 
 
+def _typed_corpus():
+    """File pairs of the other input types (bytes, suffix): pickles of objects that become AST / data-class nodes, XML with
+    several changed attributes and children, YAML, plist, CSV."""
+    import collections
+    import pickle
+    import plistlib
+    import yaml
+    od = collections.OrderedDict([("alpha", 1), ("beta", [1, 2]), ("gamma", {"x": "s"})])
+    out = []
+    out.append(('pickle', pickle.dumps(od), pickle.dumps(collections.Counter({"alpha": 2, "delta": 1, "beta": 3})), '.pkl'))
+    out.append(('pickle', pickle.dumps({"k": [1, 2, 3], "m": ("a", "b"), "n": {"p": 1.5, "q": None}}),
+                pickle.dumps({"k": [1, 3], "m": ("a", "c", "d"), "o": {"p": 2.5, "r": True}}), '.pkl'))
+    out.append(('xml', b'<r a="1" b="2" c="3" d="4"><x k="v" l="w">t</x><y/><z p="q"/></r>',
+                b'<r e="1" f="2" c="3"><x m="v" n="w">u</x><w/><z p="s" t="u"/></r>', '.xml'))
+    a, b = CORPUS[1]
+    out.append(('yaml', yaml.safe_dump(a).encode(), yaml.safe_dump(b).encode(), '.yml'))
+    pa = {k: v for k, v in a.items() if v is not None}
+    out.append(('plist', plistlib.dumps(pa), plistlib.dumps(b), '.plist'))
+    out.append(('csv', b'a,b,c\n1,2,3\nx,y,z\n', b'a,c,d\n1,5,3\nq,y,z\nm,n,o\n', '.csv'))
+    return out
+
+
+def _typed_seed_job(job):
+    idx, flags, seeds, repo_root = job
+    typ, da, db, suffix = _typed_corpus()[idx]
+    tf = gt.TempFiles()
+    fails = []
+    try:
+        pa, pb = tf.write(da, suffix, binary=True), tf.write(db, suffix, binary=True)
+        fl = [f'--from-{typ}', f'--to-{typ}'] + flags
+        outs = {s: _cli(pa, pb, fl, s, repo_root) for s in seeds}
+        ref_seed = seeds[0]
+        for s in seeds[1:]:
+            if outs[s] != outs[ref_seed]:
+                fails.append({'what': f"output of graphtage {' '.join(fl)} on {typ} files differs between PYTHONHASHSEED={ref_seed} and "
+                                      f"{s} (exit {outs[ref_seed][0]} vs {outs[s][0]}); first difference near "
+                                      f"{_first_diff(outs[ref_seed][1], outs[s][1])!r}",
+                              'class': f'c07-hash-seed-dependent-output:{typ}',
+                              'input': {'typed': idx, 'flags': flags, 'seeds': [ref_seed, s]},
+                              'replay': {'kind': 'typedseed', 'idx': idx, 'flags': flags, 'seeds': [ref_seed, s]}})
+                break
+    finally:
+        tf.cleanup()
+    return fails
+
+
 def _cli(pa, pb, flags, seed, repo_root):
     env = dict(os.environ)
     env['PYTHONHASHSEED'] = str(seed)
@@ -135,6 +181,9 @@ def replay(entry, repo_root):
     if r.get('kind') == 'seed':
         f = _seed_job((r['pair'], r['flags'], r['seeds'], repo_root))
         return f[0]['what'] if f else None
+    if r.get('kind') == 'typedseed':
+        f = _typed_seed_job((r['idx'], r['flags'], r['seeds'], repo_root))
+        return f[0]['what'] if f else None
     if r.get('kind') == 'purity':
         f = _purity_job((r['a'], r['b'], r['opt']))
         return f[0]['what'] if f else None
@@ -145,6 +194,8 @@ def bounded(tier, seed, repo_root):
     seeds = list(range(0, 6 if tier == 'quick' else 32))
     jobs = [(i, fl, seeds, repo_root) for i in range(len(CORPUS)) for fl in FLAGSETS]
     fails = [f for fs in pmap(_seed_job, jobs, repo_root, chunksize=1, job_timeout=400, on_timeout=timeout_failure('C07')) for f in fs]
+    tjobs = [(i, fl, seeds, repo_root) for i in range(len(_typed_corpus())) for fl in ([], ['-e'], ['-d'])]
+    fails += [f for fs in pmap(_typed_seed_job, tjobs, repo_root, chunksize=1, job_timeout=400, on_timeout=timeout_failure('C07')) for f in fs]
     rnd = random.Random(seed)
     docs = D.enum_docs(4, atoms=[0, "ab", None], keys=['a', 'b', 'c'])
     pj = [(rnd.choice(docs), rnd.choice(docs), gt.OPTION_COMBOS[rnd.randrange(9)]) for _ in range(3000 if tier == 'quick' else 30000)]
@@ -160,9 +211,9 @@ def bounded(tier, seed, repo_root):
     fails += [f for fs in pmap(_purity_job, pj, repo_root, job_timeout=60, on_timeout=timeout_failure('C07')) for f in fs]
     return [{
         'name': 'C07.hash-seeds-and-purity', 'bound': f"{len(CORPUS)} corpus pairs with 3-6 unshared keys x {len(FLAGSETS)} flag sets x "
-        f"PYTHONHASHSEED in 0..{len(seeds) - 1} (subprocesses); {len(pj)} document pairs (JSON, XML, CSV, plist wrapper, pydiff objects): structural and identity-level snapshots before/after diff()+print, two "
+        f"PYTHONHASHSEED in 0..{len(seeds) - 1} (subprocesses) + {len(tjobs)} pickle / XML / YAML / plist / CSV file pairs x modes x seeds; {len(pj)} document pairs (JSON, XML, CSV, plist wrapper, pydiff objects): structural and identity-level snapshots before/after diff()+print, two "
         f"in-process repetitions",
-        'evaluations': len(jobs) * len(seeds) + len(pj) * 2, 'distinct_nontrivial': len(jobs) + len({(repr(j[0]), repr(j[1])) for j in pj}),
+        'evaluations': (len(jobs) + len(tjobs)) * len(seeds) + len(pj) * 2, 'distinct_nontrivial': len(jobs) + len({(repr(j[0]), repr(j[1])) for j in pj}),
         'exhaustive': False,
         'rule': 'file pair x flags -> byte-identical stdout and equal exit status across hash seeds; tree pair -> input trees '
                 'structurally and identity-wise unchanged by diff()/print (no node object replaced, re-classed or re-annotated), identical output on repetition',
